@@ -40,7 +40,12 @@ R2  guarded key reads (T-GUARD): a subscript read m[Species.K] / m[k] of a
     setdefault / update with the key, a completed loop over a constant
     collection containing K - or over the Species enum itself - that stores
     an element per member on every path through its body, a mapping made
-    from every member: `{k: … for k in Species}`, dict.fromkeys(Species, …));
+    from every member: `{k: … for k in Species}`, dict.fromkeys(Species, …);
+    another map merged in - `m.update(v)`, `m |= v`, a completed loop over
+    v's keys that stores m[k] for each - when v has the key where the merge
+    stands: a local map with the key stored on every path so far, the result
+    of a resolved helper every return of which builds it with the key, a map
+    the function is given);
     or an earlier `if` that stores the key under tests on the configuration
     which the configuration facts at the read imply (compared as predicates
     over the option fields, nothing taking the key out in between);
@@ -62,10 +67,23 @@ R2  guarded key reads (T-GUARD): a subscript read m[Species.K] / m[k] of a
     site of the helper with the arguments bound (so the guard may sit in the
     helper - early return, conditional expression - or around each call).
 R3  switched-off species stay out: every store m[Species.K] = … into an index
-    map handed back by the trajectory / LTO producer or by a function of the
+    map handed back by the trajectory / LTO producer, by a function of the
     same module reachable from it (found through the call graph, not by name)
-    is control-dependent (in the function or at all its call sites) on facts
-    that imply K is enabled, or stores a literal zero.  A fact that a value is
+    or into any map whose entries get into the producer's map wholesale, is
+    control-dependent on facts that imply K is enabled, or stores a literal
+    zero.  Which maps those are is decided by following the entries, not the
+    names: a local map merged in (`m.update(v)`, `m |= v`, `m = v` / v.copy()
+    / SpeciesValues(v), an arm of a conditional expression, `a | b`, a loop
+    that copies v's keys without testing them), the map a resolved function
+    returns when its result is merged - the result itself, a position of the
+    tuple or a field of the record it returns, unpacked / subscripted / read
+    by field name, in place or through a local, in whatever module the
+    function lives -, a map handed to a function that stores into that
+    parameter, what the callers hand over for a parameter that is merged, and
+    the entries of a display that is merged (`m.update({Species.K: v})`).
+    The facts that count are those at the store together with those at every
+    place the entries pass on their way in (the merge statement, the call, the
+    `return`); each way in is decided on its own.  A fact that a value is
     there (`x is not None`, isinstance, a flag tested for truth) counts for
     the configurations under which the value can be there: the value is
     followed to where it was made - every binding of the local, conditional
@@ -101,10 +119,26 @@ R3  switched-off species stay out: every store m[Species.K] = … into an index
     the configuration are left out (that only weakens the premise).
 R4  element type of thrust-mode arrays: iterating a ThrustModeArray yields raw
     values; attributes that exist only on ThrustMode may be used only on
-    ThrustMode(x) / as_enum() elements.
+    ThrustMode(x) / as_enum() elements.  The rule forbids something, so a
+    tree in which no element of such an array is asked for an enum-only
+    attribute passes (a look-up table broadcast over the array instead of a
+    per-element conversion); what must not vanish is what the rule looks at
+    (functions that receive a ThrustModeArray: floor), and that it tells the
+    forms apart is shown on an embedded function (positive control).
 R5  source switches: a component (APU, GSE) is summed into the totals under
     exactly the configurations under which it is computed, and those are the
-    ones its own switch selects; the life-cycle CO2 adjustment is reported and
+    ones its own switch selects (the place where it enters the totals is any
+    read of the component's map in the summing function or in a resolved
+    helper the map is handed to, the helper's parameters bound to the
+    arguments - so the switch may be tested in the helper on a flag it is
+    given; when the map is not read under its own name - it travels through
+    a dict of the sources and a module-level table of rows that name each
+    source's switch - the summing function is run symbolically over what is
+    concretely known: tables of records, dict displays, comprehensions and
+    loops unrolled row by row, a row's methods evaluated on the row with
+    getattr(config.emissions, <its flag>) read as that attribute, symbolic
+    conditions kept as path conditions of the reads they govern); the
+    life-cycle CO2 adjustment is reported and
     added to the CO2 total under the same configurations.  The conditions of
     the two sites (enclosing tests, guard clauses, locals with one definition
     expanded) are compared as predicates over the finite domain of the option
@@ -1840,7 +1874,8 @@ class _KeyReads:
                 v = getattr(st, 'value', None)
                 if how in ('assign', 'ann') and v is not None and display_has(v):
                     stores |= set(self.flow.nodes(fi, st))
-                elif how == 'aug' and isinstance(getattr(st, 'op', None), ast.BitOr) and display_has(st.value):
+                elif how == 'aug' and isinstance(getattr(st, 'op', None), ast.BitOr) and (
+                        display_has(st.value) or self._holds(fi, st.value, key, st, m, depth)):
                     stores |= set(self.flow.nodes(fi, st))
                 elif how != 'aug':
                     kills |= set(self.flow.nodes(fi, st))
@@ -1851,7 +1886,7 @@ class _KeyReads:
                 st = stmt_of(c)
                 if c.func.attr == 'setdefault' and c.args and norm(c.args[0]) == ktxt:
                     stores |= set(self.flow.nodes(fi, st))
-                elif c.func.attr == 'update' and any(display_has(a) for a in c.args):
+                elif c.func.attr == 'update' and any(display_has(a) or self._holds(fi, a, key, c, m, depth) for a in c.args):
                     stores |= set(self.flow.nodes(fi, st))
                 elif c.func.attr in ('pop', 'popitem', 'clear'):
                     kills |= set(self.flow.nodes(fi, st))
@@ -1881,7 +1916,46 @@ class _KeyReads:
                     continue
                 if self._stores_every(fi, lit[0], m, t.slice.id):
                     stores |= {n for n in g.nodes_of(lit[0]) if g.nodes[n].kind == 'join'}
+        # a completed loop over the keys of another mapping that stores an element for every key it walks: the key
+        # is in m afterwards when that mapping had it where the loop stands
+        if g is not None and depth < 3:
+            for t, st, how in stores_to(fn):
+                if not (isinstance(t, ast.Subscript) and isinstance(t.value, ast.Name) and t.value.id == m
+                        and isinstance(t.slice, ast.Name) and how in ('assign', 'ann')):
+                    continue
+                gov = _governing(st, t.slice.id)
+                if gov is None or gov[1] is None or gov[1][0] == m or not isinstance(gov[0], ast.For) or gov[0].orelse:
+                    continue
+                src = iterated_mapping(gov[2])
+                if src is None or src[1] == 'values' or not self._stores_every(fi, gov[0], m, t.slice.id):
+                    continue
+                if self._holds(fi, src[0], key, gov[0], m, depth):
+                    stores |= {n for n in g.nodes_of(gov[0]) if g.nodes[n].kind == 'join'}
         return stores, kills - stores
+
+    def _holds(self, fi, e, key, at, m, depth):
+        """the map expression e, merged into map m at node `at` (`m.update(e)`, `m |= e`), certainly has `key` there: a
+        read e[key] at that place would find it (another local map with the key stored on every path so far, the
+        result of a helper every return of which builds the map with the key - itself, a field or an unpacked
+        component -, a map the function is given, decided at its call sites, a fact on the path)"""
+        if depth >= 3 or isinstance(e, ast.Starred) or self.handled(fi, at):
+            return False
+        e = _map_content(e)
+        keep = self.why_not
+        try:
+            if isinstance(e, ast.Call) and _species_const(key):
+                callee = resolve_call(self.prog, fi, e)
+                if callee is None or callee.cls is not None or callee.node.decorator_list:
+                    return False
+                rets = [r_.value for r_ in walk_no_nested(callee.node) if isinstance(r_, ast.Return) and r_.value is not None]
+                return bool(rets) and all(self._returns_with_key(callee, rv, None, key, depth + 1) for rv in rets)
+            if isinstance(e, ast.Name) and e.id == m:
+                return False
+            if isinstance(e, (ast.Name, ast.Attribute)):
+                return self.safe(fi, e, key, at, depth + 1) is not None
+            return False
+        finally:
+            self.why_not = keep
 
     def _literal_elts(self, fi, it):
         while isinstance(it, ast.Call) and isinstance(it.func, ast.Name) and it.func.id in ('list', 'tuple', 'sorted', 'set', 'frozenset') \
@@ -2183,17 +2257,7 @@ class _KeyReads:
         return None
 
     def _record_args(self, fi, call):
-        """field name -> argument expression of a call that builds a record class of the repository (a dataclass /
-        NamedTuple without a constructor of its own: each field is the argument it is given); None for anything else"""
-        from ..resolve import resolve_class_call
-        rc = resolve_class_call(self.prog, fi, call) if isinstance(call, ast.Call) else None
-        if rc is None or any(c_.methods.get(n) is not None for c_ in rc.mro() for n in ('__init__', '__new__', '__post_init__')) \
-                or any(isinstance(a_, ast.Starred) for a_ in call.args) or any(k.arg is None for k in call.keywords):
-            return None
-        order = [n for n, ann in rc.all_fields().items() if 'ClassVar' not in norm(ann)]
-        out = dict(zip(order, call.args))
-        out.update({k.arg: k.value for k in call.keywords})
-        return out
+        return _record_args(self.prog, fi, call)
 
     def _field_source(self, fi, base):
         """the local map `m` when base is `rec.field`, rec is bound once - to a record built with `field=m` - and
@@ -2461,7 +2525,7 @@ def _literal_species_keys(prog, fi, st, keyvar, with_owner=False, enum=False):
     return None
 
 
-def _config_facts(atoms) -> str:
+def _config_facts(atoms, fi=None) -> str:
     """the facts about the configuration among atoms, as text (for messages)"""
     out = []
     for t, pol in atoms:
@@ -2470,6 +2534,11 @@ def _config_facts(atoms) -> str:
             txt = f'{norm(t.left)} in ({", ".join(norm(v) for v in vals)})' if vals else None
         else:
             txt = norm(t)
+            if fi is not None and isinstance(t, ast.Name) and t.id not in fi.params:
+                # a flag: say what it stands for
+                v = single_def_value(fi.node, t.id)
+                if v is not None and ('config.' in norm(v) or 'enabled' in norm(v)):
+                    txt = f'{t.id} = {norm(v)}'
         if txt and ('config.' in txt or 'enabled' in txt):
             out.append(('' if pol else 'not ') + txt)
     return ('the facts on its path (' + '; '.join(out)[:200] + ') do not imply') if out else 'nothing on its path implies'
@@ -2624,46 +2693,299 @@ def species_enabled_by_value(prog, table, fi, atoms, K: str, extra=None) -> str 
 
 
 # ---------------------------------------------------------------- R3 -----
+_COPY_CALLS = ('dict', 'SpeciesValues', 'copy', 'deepcopy', 'copy.copy', 'copy.deepcopy')
+
+
+def _map_content(e):
+    """the map expression whose entries e hands on unchanged: `x.copy()`, dict(x), SpeciesValues[..](x), copy(x)"""
+    while True:
+        if isinstance(e, ast.Call) and isinstance(e.func, ast.Attribute) and e.func.attr == 'copy' and not e.args and not e.keywords \
+                and not (isinstance(e.func.value, ast.Name) and e.func.value.id == 'copy'):
+            e = e.func.value
+        elif isinstance(e, ast.Call) and len(e.args) == 1 and not e.keywords and not isinstance(e.args[0], ast.Starred) \
+                and call_name(e).split('[')[0] in _COPY_CALLS:
+            e = e.args[0]
+        elif isinstance(e, ast.NamedExpr):
+            e = e.value
+        else:
+            return e
+
+
+def _record_args(prog, fi, call):
+    """field name -> argument expression of a call that builds a record class of the repository (a dataclass /
+    NamedTuple without a constructor of its own: each field is the argument it is given); None for anything else"""
+    from ..resolve import resolve_class_call
+    rc = resolve_class_call(prog, fi, call) if isinstance(call, ast.Call) else None
+    if rc is None or any(c_.methods.get(n) is not None for c_ in rc.mro() for n in ('__init__', '__new__', '__post_init__')) \
+            or any(isinstance(a_, ast.Starred) for a_ in call.args) or any(k.arg is None for k in call.keywords):
+        return None
+    order = [n for n, ann in rc.all_fields().items() if 'ClassVar' not in norm(ann)]
+    out = dict(zip(order, call.args))
+    out.update({k.arg: k.value for k in call.keywords})
+    return out
+
+
+class _IndexFlow:
+    """Which maps end up, wholesale, in the index map an entry producer hands back?  The producer's own map; a local map
+    merged into one of them (`m.update(v)`, `m |= v`, `m = v` / `v.copy()` / SpeciesValues(v), either arm of a
+    conditional expression, `a | b`); the map a resolved function returns when its result is merged (the result
+    itself, a position of the tuple or a field of the record it returns - unpacked, subscripted or read by field
+    name, in place or through a local); a map handed to a function that stores into that parameter; what the callers
+    hand over for a parameter that is merged.  Every store into such a map is a store into the inventory's indices.
+    Each map comes with the places its entries pass on the way (`contexts`: one list of (function, node) per way in):
+    the configuration facts at those places hold whenever an entry stored into the map reaches the inventory."""
+
+    def __init__(self, prog):
+        self.prog = prog
+        self.maps: dict[tuple, list] = {}       # (file, qualname, name) -> [function, name, [context, ...]]
+        self.displays: list[tuple] = []          # (function, key, value, statement, context): `m.update({K: v})`
+        self._stack: list[tuple] = []
+        self.order: list[tuple] = []
+        self.opaque: list = []                  # decorated helpers whose result flows in: not judged from their facts
+
+    def contexts(self, fi, name):
+        ent = self.maps.get((fi.file, fi.qualname, name))
+        return ent[2] if ent else None
+
+    def visit(self, fi, name, ctx):
+        key = (fi.file, fi.qualname, name)
+        if key in self._stack or len(self._stack) > 8:
+            return
+        ent = self.maps.get(key)
+        if ent is None:
+            ent = self.maps[key] = [fi, name, []]
+            self.order.append(key)
+        sig = [(f.qualname, id(n)) for f, n in ctx]
+        if any([(f.qualname, id(n)) for f, n in c] == sig for c in ent[2]) or len(ent[2]) > 12:
+            return
+        ent[2].append(ctx)
+        self._stack.append(key)
+        try:
+            self._sources(fi, name, ctx)
+        finally:
+            self._stack.pop()
+
+    def _sources(self, fi, name, ctx):
+        prog = self.prog
+        for t, st, how in stores_to(fi.node):
+            if not (isinstance(t, ast.Name) and t.id == name):
+                continue
+            if how in ('assign', 'ann'):
+                v = _stored_value(t, st)
+                if v is not None:
+                    self.expr(fi, v, ctx + [(fi, st)])
+                elif isinstance(st, ast.Assign) and len(st.targets) == 1 and isinstance(st.targets[0], (ast.Tuple, ast.List)) \
+                        and not any(isinstance(x, ast.Starred) for x in st.targets[0].elts):
+                    i = next((i for i, x in enumerate(st.targets[0].elts) if x is t), None)
+                    if i is not None:
+                        self.expr(fi, st.value, ctx + [(fi, st)], i)
+            elif how == 'aug' and isinstance(getattr(st, 'op', None), ast.BitOr):
+                self.expr(fi, st.value, ctx + [(fi, st)])
+        for c in calls_in(fi.node):
+            if isinstance(c.func, ast.Attribute) and isinstance(c.func.value, ast.Name) and c.func.value.id == name \
+                    and c.func.attr == 'update':
+                for a in c.args:
+                    if not isinstance(a, ast.Starred):
+                        self.expr(fi, a, ctx + [(fi, stmt_of(c) or c)])
+                continue
+            # the map handed to a function that stores into the parameter it arrives in
+            if any(isinstance(a_, ast.Name) and a_.id == name for a_ in [*c.args, *[k.value for k in c.keywords]]):
+                callee = resolve_call(prog, fi, c)
+                if callee is None or callee.node is fi.node or _record_args(prog, fi, c) is not None:
+                    continue
+                for pname in callee.params:
+                    a_ = _bound_arg(callee, c, pname)
+                    if isinstance(a_, ast.Name) and a_.id == name and _fills(callee, pname):
+                        self.visit(callee, pname, ctx + [(fi, c)])
+        if name in fi.params:
+            for caller, call in callers_of(prog, fi):
+                b = _bound_arg(fi, call, name)
+                if b is not None:
+                    self.expr(caller, b, ctx + [(caller, call)])
+
+    def expr(self, fi, e, ctx, sel=None, depth=0):
+        """the entries of map expression e of function fi (component `sel` of it: a position or a field name) get
+        into an index map on the way `ctx`"""
+        prog = self.prog
+        if depth > 8 or e is None:
+            return
+        e = _map_content(e)
+        if isinstance(e, ast.IfExp):
+            self.expr(fi, e.body, ctx, sel, depth + 1)
+            self.expr(fi, e.orelse, ctx, sel, depth + 1)
+            return
+        if isinstance(e, ast.BinOp) and isinstance(e.op, ast.BitOr) and sel is None:
+            self.expr(fi, e.left, ctx, sel, depth + 1)
+            self.expr(fi, e.right, ctx, sel, depth + 1)
+            return
+        if sel is None:
+            if isinstance(e, ast.Dict):
+                for k, v in zip(e.keys, e.values):
+                    if k is None:
+                        self.expr(fi, v, ctx, None, depth + 1)
+                    else:
+                        self.displays.append((fi, k, v, ctx))
+            elif isinstance(e, ast.Name):
+                if e.id in fi.params or local_defs_of(fi, e.id):
+                    self.visit(fi, e.id, ctx)
+            elif isinstance(e, ast.Attribute):
+                self.expr(fi, e.value, ctx, e.attr, depth + 1)
+            elif isinstance(e, ast.Subscript) and isinstance(e.slice, ast.Constant) and isinstance(e.slice.value, int) \
+                    and not isinstance(e.slice.value, bool) and e.slice.value >= 0:
+                self.expr(fi, e.value, ctx, e.slice.value, depth + 1)
+            elif isinstance(e, ast.Call):
+                self._returns(fi, e, ctx, None, depth)
+            return
+        if isinstance(e, ast.Name):
+            if e.id not in fi.params:
+                self.expr(fi, single_def_value(fi.node, e.id), ctx, sel, depth + 1)
+        elif isinstance(e, (ast.Tuple, ast.List)):
+            if isinstance(sel, int) and sel < len(e.elts) and not any(isinstance(x, ast.Starred) for x in e.elts):
+                self.expr(fi, e.elts[sel], ctx, None, depth + 1)
+        elif isinstance(e, ast.Call):
+            args = _record_args(prog, fi, e)
+            if args is not None:
+                names = list(args)
+                f = sel if isinstance(sel, str) else (names[sel] if sel < len(names) else None)
+                if f in args:
+                    self.expr(fi, args[f], ctx, None, depth + 1)
+            else:
+                self._returns(fi, e, ctx, sel, depth)
+
+    def _returns(self, fi, call, ctx, sel, depth):
+        callee = resolve_call(self.prog, fi, call)
+        if callee is None or isinstance(callee.node, ast.Lambda) or callee.name.startswith('__'):
+            return
+        if callee.node.decorator_list:
+            # a decorated (e.g. memoised) helper answers for the configuration of an earlier call: the facts at its
+            # stores say nothing about the configuration its result is used under
+            self.opaque.append(callee)
+            return
+        key = ('ret', callee.file, callee.qualname, sel)
+        if key in self._stack or len(self._stack) > 8:
+            return
+        self._stack.append(key)
+        try:
+            for r in walk_no_nested(callee.node):
+                if isinstance(r, ast.Return) and r.value is not None:
+                    self.expr(callee, r.value, ctx + [(callee, r)], sel, depth + 1)
+        finally:
+            self._stack.pop()
+
+
+def _fills(fi, pname) -> bool:
+    """function fi puts entries into the map it receives as parameter pname (element store, update, |=, or by handing
+    it on to a call)"""
+    for t, _st, how in stores_to(fi.node):
+        if isinstance(t, ast.Subscript) and isinstance(t.value, ast.Name) and t.value.id == pname and how != 'del':
+            return True
+        if isinstance(t, ast.Name) and t.id == pname and how == 'aug':
+            return True
+    for c in calls_in(fi.node):
+        if isinstance(c.func, ast.Attribute) and isinstance(c.func.value, ast.Name) and c.func.value.id == pname \
+                and c.func.attr in ('update', 'setdefault', '__setitem__'):
+            return True
+        if any(isinstance(a_, ast.Name) and a_.id == pname for a_ in [*c.args, *[k.value for k in c.keywords]]):
+            return True
+    return False
+
+
+def local_defs_of(fi, name):
+    from ..astutil import local_defs
+    return local_defs(fi.node, name)
+
+
 def rule_stores(ctx, groups):
     prog = ctx.prog
     n = 0
     n_fn = 0
 
-    def enabled_at(fi, atoms, K, call_facts):
+    def way_premises(c):
+        return [p for f, nd in c for p in groups.premises(f, facts_at(f.node, nd))]
+
+    def enabled_at(fi, atoms, K, ways):
         """(reason, where) when the facts at a store of function fi imply that species K is enabled: the configuration
-        facts in the producer, those at every call site of it, or - with a fact about a value among them - the
-        configurations under which a helper hands that value back"""
+        facts in the producer, those at every place the map passes on its way into the inventory's indices (the call
+        sites of a helper, the statement that merges a local map), both together, or - with a fact about a value among
+        them - the configurations under which a helper hands that value back"""
         g = species_enabled_by(atoms, K, groups, fi=fi)
         if g is not None:
             return g, 'in the producer'
-        if call_facts:
-            gs = [species_enabled_by(a, K, groups, fi=c_) for c_, a in call_facts]
-            if gs and all(gs):
-                return gs[0], 'at every call site'
+        on_way = [way_premises(c) for c in ways] if ways and all(ways) else None
+        if on_way:
+            gs = [groups.implied_by_premises(p_, K) if p_ else None for p_ in on_way]
+            if all(gs):
+                return gs[0], 'at every place the map is handed on'
+            own = groups.premises(fi, atoms)
+            gs = [groups.implied_by_premises(own + p_, K) if own + p_ else None for p_ in on_way]
+            if all(gs):
+                return gs[0], 'with the facts at every place the map is handed on'
         g = species_enabled_by_value(prog, groups, fi, atoms, K)
         if g is not None:
             return g, 'in the producer'
-        if call_facts:
-            gs = [species_enabled_by_value(prog, groups, fi, atoms, K, extra=groups.premises(c_, a)) for c_, a in call_facts]
+        if on_way:
+            gs = [species_enabled_by_value(prog, groups, fi, atoms, K, extra=p_) for p_ in on_way]
             if gs and all(gs):
-                return gs[0], 'with the facts at every call site'
+                return gs[0], 'with the facts at every place the map is handed on'
         return None, 'in the producer'
 
+    def copied_from(fi, t, st):
+        """the mapping whose keys the variable key of the store `m[k] = …` walks - the store then copies that mapping's
+        species into m - unless a test on the key or the map itself decides the store (None then)"""
+        keyvar = t.slice.id
+        for tt, pol in facts_at(fi.node, st):
+            if pol and isinstance(tt, ast.Compare) and not isinstance(tt.comparators[0], ast.pattern) \
+                    and isinstance(tt.ops[0], ast.In) and norm(tt.left) == keyvar and 'enabled_species' in norm(tt.comparators[0]):
+                return None
+        val = getattr(st, 'value', None)
+        if val is not None and f'{norm(t.value)}[{keyvar}]' in norm(val):
+            return None
+        gov = _governing(st, keyvar)
+        if gov is None or gov[1] is None or gov[1][0] == norm(t.value):
+            return None
+        im = iterated_mapping(gov[2])
+        return im[0] if im is not None else None
+
     for rel in PRODUCER_ENTRIES:
-        for fi, maps in _producers(prog, rel):
-            n_fn += 1
-            name = fi.name
-            call_facts = None
-            cs = callers_of(prog, fi)
-            if cs and name != PRODUCER_ENTRIES[rel]:
-                sets = []
-                for caller, call in cs:
-                    if caller.file.startswith('src/AEIC/emissions'):
-                        sets.append((caller, facts_at(caller.node, call)))
-                call_facts = sets
+        part = rel.split("/")[-1][:-3]
+        old = _producers(prog, rel)
+        flow = _IndexFlow(prog)
+        for m_ in sorted(old[0][1]):
+            flow.visit(old[0][0], m_, [])
+        for r_ in walk_no_nested(old[0][0].node):
+            # the inventory part handed back through a local (`part = EmissionsSubset(indices=m, …)` … `return part`)
+            if isinstance(r_, ast.Return) and isinstance(r_.value, ast.Name):
+                flow.expr(old[0][0], r_.value, [], 'indices')
+        # a store under a key that walks another mapping copies that mapping's species: its entries flow in as well
+        done = 0
+        while done < len(flow.order) and done < 200:
+            fi, name, ways = flow.maps[flow.order[done]]
+            done += 1
             for t, st, how in stores_to(fi.node):
-                targets = [t]
-                if not (isinstance(t, ast.Subscript) and norm(t.value) in maps):
+                if isinstance(t, ast.Subscript) and isinstance(t.value, ast.Name) and t.value.id == name and isinstance(t.slice, ast.Name) \
+                        and how in ('assign', 'ann'):
+                    src = copied_from(fi, t, st) if not _literal_species_keys(prog, fi, st, t.slice.id) else None
+                    if isinstance(src, (ast.Name, ast.Attribute, ast.Subscript, ast.Call)) and _only_enabled_keys(prog, fi, _governing(st, t.slice.id)[2], groups) is None:
+                        for c in list(ways):
+                            flow.expr(fi, src, c + [(fi, st)])
+        todo = []           # (function, map name, ways in)
+        for fi, maps in old:
+            for m_ in sorted(maps):
+                ways = flow.contexts(fi, m_)
+                if ways is None:
+                    # not seen flowing in: every call site of the helper within the package is a way in
+                    ways = [[(caller, call)] for caller, call in callers_of(prog, fi) if caller.file.startswith('src/AEIC/emissions')] \
+                        if fi is not old[0][0] else []
+                    ways = ways or [[]]
+                todo.append((fi, m_, ways))
+        for key in flow.order:
+            fi, name, ways = flow.maps[key]
+            if not any(f is fi and m_ == name for f, m_, _w in todo):
+                todo.append((fi, name, ways))
+        seen_fn = set()
+        for fi, name, ways in todo:
+            for t, st, how in stores_to(fi.node):
+                if not (isinstance(t, ast.Subscript) and norm(t.value) == name):
                     continue
                 key = t.slice
                 if isinstance(key, ast.Attribute) and norm(key.value) == 'Species':
@@ -2672,7 +2994,10 @@ def rule_stores(ctx, groups):
                     K, keyvar = None, key.id
                 else:
                     continue
+                if how == 'del':
+                    continue
                 n += 1
+                seen_fn.add((fi.file, fi.qualname))
                 val = getattr(st, 'value', None)
                 if val is not None and is_literal_zero(val):
                     ctx.ob('C11-R3', fi, f'{norm(t)} = {norm(val)[:30]}', True, 'literal zero contributes nothing',
@@ -2696,16 +3021,24 @@ def rule_stores(ctx, groups):
                     filtered = None
                     if g is None and not restore and not own_keys and gov is not None and gov[1] is not None:
                         filtered = _only_enabled_keys(prog, fi, gov[2], groups)
+                        if filtered is None and not _literal_species_keys(prog, fi, st, keyvar):
+                            # the key walks a mapping whose own stores are judged where they stand (a local map, the
+                            # map a helper returns, a field of its result): the copy adds nothing of its own
+                            src = copied_from(fi, t, st)
+                            got = _flow_targets(flow, prog, fi, src) if src is not None else None
+                            if got:
+                                filtered = (f'the key walks {norm(src)[:40]}, and every store into that map is judged where it stands '
+                                            f'({", ".join(got)[:80]})')
                     if g is None and not restore and not own_keys and filtered is None:
                         # the key walks a constant collection of Species members: each of them is a store under a
                         # constant key at this place
                         lit = _literal_species_keys(prog, fi, st, keyvar)
                         if lit:
                             for K_ in lit:
-                                g_, where = enabled_at(fi, atoms, K_, call_facts)
+                                g_, where = enabled_at(fi, atoms, K_, ways)
                                 ctx.ob('C11-R3', fi, f'{norm(t)} for {keyvar} = Species.{K_}', g_ is not None,
                                        f'implied on: `{g_}` ({where})' if g_ else
-                                       (f'Species.{K_} is written into the {rel.split("/")[-1][:-3]} indices, and {_config_facts(atoms)} '
+                                       (f'Species.{K_} is written into the {part} indices, and {_config_facts(atoms)} '
                                         f'that it is enabled: a switched-off species shows up in the inventory'), line=st.lineno)
                             continue
                     ok = g is not None or restore or own_keys or filtered is not None
@@ -2715,13 +3048,84 @@ def rule_stores(ctx, groups):
                             filtered) if ok else
                            'a species taken from a variable is stored without testing that it is enabled', line=st.lineno)
                     continue
-                g, where = enabled_at(fi, atoms, K, call_facts)
+                g, where = enabled_at(fi, atoms, K, ways)
                 ctx.ob('C11-R3', fi, f'{norm(t)} = {norm(val)[:40] if val is not None else ""}', g is not None,
                        f'implied on: `{g}` ({where})' if g else
-                       (f'Species.{K} is written into the {rel.split("/")[-1][:-3]} indices, and {_config_facts(atoms)} '
+                       (f'Species.{K} is written into the {part} indices{_via(fi, name, ways)}, and {_config_facts(atoms, fi)} '
                         f'that it is enabled: a switched-off species shows up in the inventory'), line=st.lineno)
+        # entries written as a display that is merged in: `m.update({Species.K: v})`, `return {Species.K: v}`
+        for fi, k, v, way in flow.displays:
+            if not (isinstance(k, ast.Attribute) and norm(k.value) == 'Species') or not way:
+                continue
+            n += 1
+            seen_fn.add((fi.file, fi.qualname))
+            f_at, node = way[-1]
+            if is_literal_zero(v):
+                ctx.ob('C11-R3', fi, f'{{{norm(k)}: {norm(v)[:30]}}}', True, 'literal zero contributes nothing', line=k.lineno, nontrivial=False)
+                continue
+            atoms = facts_at(f_at.node, node) + [x for x in facts_at(fi.node, k) if isinstance(node, ast.stmt) and node is stmt_of(k)]
+            g, where = enabled_at(f_at, atoms, k.attr, [way[:-1]])
+            ctx.ob('C11-R3', fi, f'{{{norm(k)}: {norm(v)[:40]}}}', g is not None,
+                   f'implied on: `{g}` ({where})' if g else
+                   (f'Species.{k.attr} is written into the {part} indices (an entry of a display that is merged into them), and '
+                    f'{_config_facts(atoms)} that it is enabled: a switched-off species shows up in the inventory'), line=k.lineno)
+        n_fn += len(seen_fn | {(old[0][0].file, old[0][0].qualname)})
     ctx.floor('C11-R3/producers', n_fn, 2, 'functions that build the trajectory and LTO index maps')
     ctx.floor('C11-R3', n, 18, 'species stores in trajectory and LTO producers')
+
+
+def _via(fi, name, ways):
+    """how the map gets into the inventory, for messages: the last place it is handed on"""
+    for c in ways:
+        for f, nd in reversed(c):
+            if not isinstance(nd, ast.Return):
+                return f' (`{name}` of {fi.name} gets into them at {f.name} line {getattr(nd, "lineno", 0)}: `{norm(nd)[:50]}`)'
+    return ''
+
+
+def _flow_targets(flow, prog, fi, src):
+    """names of the maps (of this or another function) the expression src of fi stands for, when all of them are maps
+    the flow has under judgement; None otherwise"""
+    probe = _IndexFlow(prog)
+    probe.expr(fi, src, [(fi, src)])
+    if not probe.order or probe.displays or probe.opaque:
+        return None
+    names = []
+    for key in probe.order:
+        if key not in flow.maps or not _maplike(flow.maps[key][0], key[2]):
+            return None
+        names.append(f'{flow.maps[key][0].name}:{key[2]}')
+    return names
+
+
+_SEQ_MAKERS = ('list', 'tuple', 'sorted', 'set', 'frozenset', 'reversed', 'enumerate', 'zip', 'range', 'iter')
+
+
+def _maplike(fi, name) -> bool:
+    """can the name hold a mapping?  A parameter, or a local every binding of which gives it a mapping display, the
+    result of a call that is not one of the sequence makers, or another name / field / conditional of such"""
+    if name in fi.params:
+        return True
+    ds = local_defs_of(fi, name)
+    if not ds:
+        return False
+    for d in ds:
+        if isinstance(d, ast.AugAssign) and isinstance(d.op, ast.BitOr):
+            continue
+        if not isinstance(d, (ast.Assign, ast.AnnAssign)) or d.value is None:
+            return False
+        tg = d.targets[0] if isinstance(d, ast.Assign) else d.target
+        v = _map_content(d.value)
+        if isinstance(tg, (ast.Tuple, ast.List)):
+            if not isinstance(v, ast.Call):
+                return False
+            continue
+        if isinstance(v, ast.Call):
+            if call_name(v) in _SEQ_MAKERS:
+                return False
+        elif not isinstance(v, (ast.Dict, ast.DictComp, ast.Name, ast.Attribute, ast.Subscript, ast.IfExp, ast.BinOp)):
+            return False
+    return True
 
 
 # ---------------------------------------------------------------- R4 -----
@@ -2730,63 +3134,437 @@ def rule_elements(ctx):
     tm = prog.cls('performance/types.py', 'ThrustMode')
     enum_only = set(tm.methods) - {'__str__', '_missing_'}
     ctx.floor('C11-R4/attrs', len(enum_only), 1, 'ThrustMode-only attributes')
-    n = 0
+
+    def array_params(fn):
+        a = fn.args
+        return {arg.arg for arg in a.posonlyargs + a.args + a.kwonlyargs
+                if arg.annotation is not None and 'ThrustModeArray' in norm(arg.annotation)}
+
+    def uses(fn, arr_params):
+        """(ok, text, why, line) for every use of a ThrustMode-only attribute on an element of an iteration over a
+        ThrustModeArray parameter of function fn"""
+        out = []
+        for x in ast.walk(fn):
+            tgt = it = None
+            if isinstance(x, ast.For):
+                tgt, it = x.target, x.iter
+            elif isinstance(x, ast.comprehension):
+                tgt, it = x.target, x.iter
+            if it is None or not isinstance(tgt, ast.Name):
+                continue
+            raw = isinstance(it, ast.Name) and it.id in arr_params or \
+                (isinstance(it, ast.Attribute) and it.attr == 'data' and norm(it.value) in arr_params)
+            if not raw and isinstance(it, ast.Call) and isinstance(it.func, ast.Attribute) \
+                    and norm(it.func.value) in arr_params:
+                # a method of the array class: np.vectorize(<str-mixin enum>) without otypes=[object] lets numpy
+                # infer a string dtype, so the elements are numpy strings again, not enum members
+                meth = prog.cls('performance/types.py', 'ThrustModeArray').methods.get(it.func.attr)
+                if meth is not None:
+                    rets = [r.value for r in walk_no_nested(meth.node) if isinstance(r, ast.Return) and r.value is not None]
+                    for rv in rets:
+                        if isinstance(rv, ast.Call) and isinstance(rv.func, ast.Call) and call_name(rv.func) in ('np.vectorize', 'numpy.vectorize') \
+                                and rv.func.args and norm(rv.func.args[0]) == 'ThrustMode' \
+                                and not any(k.arg == 'otypes' for k in rv.func.keywords) \
+                                and any(b in ('str', 'StrEnum', 'enum.StrEnum') for k in tm.mro() for b in k.base_exprs):
+                            raw = True
+            if not raw:
+                continue
+            scope = x if isinstance(x, ast.For) else getattr(x, '_parent', x)
+            for u in ast.walk(scope):
+                if isinstance(u, ast.Attribute) and isinstance(u.value, ast.Name) and u.value.id == tgt.id \
+                        and u.attr in enum_only:
+                    out.append((False, f'{tgt.id}.{u.attr} on raw element of {norm(it)}',
+                                f'iterating a ThrustModeArray yields raw values (numpy str), which have no '
+                                f'`{u.attr}`: AttributeError for every configuration reaching this line', u.lineno))
+                if isinstance(u, ast.Attribute) and u.attr in enum_only and isinstance(u.value, ast.Call) \
+                        and call_name(u.value) == 'ThrustMode' and u.value.args \
+                        and norm(u.value.args[0]) == tgt.id:
+                    out.append((True, f'ThrustMode({tgt.id}).{u.attr}', 'raw element converted to the enum before use', u.lineno))
+        return out
+
+    n = n_fn = 0
     mods = [prog.module(r) for r in ('emissions/trajectory.py', 'emissions/lto.py', 'emissions/utils.py')]
     if ctx.tier == 'thorough':
         mods = [m for m in prog.src_modules() if '/emissions/' in m.relpath]
     for m in mods:
         for fi in m.functions.values():
-            arr_params = set()
-            a = fi.node.args
-            for arg in a.posonlyargs + a.args + a.kwonlyargs:
-                if arg.annotation is not None and 'ThrustModeArray' in norm(arg.annotation):
-                    arr_params.add(arg.arg)
+            arr_params = array_params(fi.node)
             if not arr_params:
                 continue
-            for x in ast.walk(fi.node):
-                tgt = it = None
-                if isinstance(x, ast.For):
-                    tgt, it = x.target, x.iter
-                elif isinstance(x, ast.comprehension):
-                    tgt, it = x.target, x.iter
-                if it is None or not isinstance(tgt, ast.Name):
-                    continue
-                raw = isinstance(it, ast.Name) and it.id in arr_params or \
-                    (isinstance(it, ast.Attribute) and it.attr == 'data' and norm(it.value) in arr_params)
-                if not raw and isinstance(it, ast.Call) and isinstance(it.func, ast.Attribute) \
-                        and norm(it.func.value) in arr_params:
-                    # a method of the array class: np.vectorize(<str-mixin enum>) without otypes=[object] lets numpy
-                    # infer a string dtype, so the elements are numpy strings again, not enum members
-                    meth = prog.cls('performance/types.py', 'ThrustModeArray').methods.get(it.func.attr)
-                    if meth is not None:
-                        rets = [r.value for r in walk_no_nested(meth.node) if isinstance(r, ast.Return) and r.value is not None]
-                        for rv in rets:
-                            if isinstance(rv, ast.Call) and isinstance(rv.func, ast.Call) and call_name(rv.func) in ('np.vectorize', 'numpy.vectorize') \
-                                    and rv.func.args and norm(rv.func.args[0]) == 'ThrustMode' \
-                                    and not any(k.arg == 'otypes' for k in rv.func.keywords) \
-                                    and any(b in ('str', 'StrEnum', 'enum.StrEnum') for k in tm.mro() for b in k.base_exprs):
-                                raw = True
-                if not raw:
-                    continue
-                scope = x if isinstance(x, ast.For) else getattr(x, '_parent', x)
-                for u in ast.walk(scope):
-                    if isinstance(u, ast.Attribute) and isinstance(u.value, ast.Name) and u.value.id == tgt.id \
-                            and u.attr in enum_only:
-                        n += 1
-                        ctx.ob('C11-R4', fi, f'{tgt.id}.{u.attr} on raw element of {norm(it)}', False,
-                               f'iterating a ThrustModeArray yields raw values (numpy str), which have no '
-                               f'`{u.attr}`: AttributeError for every configuration reaching this line',
-                               line=u.lineno)
-                    if isinstance(u, ast.Attribute) and u.attr in enum_only and isinstance(u.value, ast.Call) \
-                            and call_name(u.value) == 'ThrustMode' and u.value.args \
-                            and norm(u.value.args[0]) == tgt.id:
-                        n += 1
-                        ctx.ob('C11-R4', fi, f'ThrustMode({tgt.id}).{u.attr}', True,
-                               'raw element converted to the enum before use', line=u.lineno)
-    ctx.floor('C11-R4', n, 1, 'uses of ThrustMode-only attributes on array elements')
+            n_fn += 1
+            for ok, text, why, line in uses(fi.node, arr_params):
+                n += 1
+                ctx.ob('C11-R4', fi, text, ok, why, line=line)
+    # the rule forbids something, so a tree without any such use passes; what must not vanish is what it looks at
+    # (functions that receive a ThrustModeArray), and that it sees the two forms is shown on an embedded function
+    ctx.floor('C11-R4', n_fn, 1, 'functions of the emissions modules that receive a ThrustModeArray')
+    ctx.stats['C11-R4/uses'] = n
+    attr = sorted(enum_only)[0] if enum_only else 'x'
+    ctl = ast.parse(f'def f(modes: ThrustModeArray, other):\n a = [c.{attr} for c in modes]\n b = [ThrustMode(c).{attr} for c in modes]\n'
+                    f' for d in modes.data:\n  e = d.{attr}\n g = [h.{attr} for h in other]\n return a, b, e, g')
+    for a_ in ast.walk(ctl):
+        for ch in ast.iter_child_nodes(a_):
+            if not isinstance(ch, (ast.expr_context, ast.operator, ast.unaryop, ast.cmpop, ast.boolop)):
+                ch._parent = a_
+    got = sorted((ln, ok) for ok, _t, _w, ln in uses(ctl.body[0], array_params(ctl.body[0])))
+    ctx.control('C11-R4', got == [(2, False), (3, True), (5, False)],
+                'embedded function: an enum-only attribute on a raw element (comprehension, loop over .data) is seen, on '
+                'ThrustMode(element) it is accepted, an iteration over something else is left alone')
 
 
 # ---------------------------------------------------------------- R5 -----
+class _CondList:
+    """a list whose elements are there under conditions: [(guards, value)] - a comprehension over a constant table
+    with a condition on the configuration"""
+
+    def __init__(self, items):
+        self.items = items
+
+
+class _ReadsOf:
+    """Under which conditions does a function read an element of the map it receives as parameter `comp`?  Found by
+    running the function symbolically over what is concretely known - module-level tables of records (NamedTuple /
+    dataclass rows, also of the module a moved function came from), dict displays, literal loops and comprehensions
+    unrolled row by row, methods of a row evaluated on that row (`src.enabled()` with `getattr(config.emissions,
+    self.flag)` read as the attribute the row names) - while parameters and everything else stay symbolic.  A
+    condition that stays symbolic becomes a path condition of what it governs: the elements a comprehension keeps,
+    the branch of an `if`, the rest of a block after a guard clause.  Every `x[…]` whose x is the parameter itself at
+    that point is a read, reported with its path conditions.  Anything outside this raises _Cannot."""
+
+    _NORET = object()
+
+    def __init__(self, prog, fi, comp):
+        self.prog, self.fi, self.comp = prog, fi, comp
+        self.I = _SpeciesSetInterp(fi.node, fi.module)
+        self.I.result = '<no result set>'
+        self.sites: list[tuple[list, ast.AST]] = []
+        self.steps = 0
+        self._home: dict[int, object] = {}      # id(record) -> module its class lives in
+        self._consts: dict[str, object] = {}
+
+    def run(self):
+        env = {p_: _Sym(p_) for p_ in self.fi.params}
+        self.block(self.fi.node.body, env, [], in_loop=False)
+        return self.sites
+
+    # ---- values
+    def _const(self, name):
+        if name not in self._consts:
+            r = self.prog.resolve_name(self.fi.module, name)
+            v = None
+            if isinstance(r, tuple) and r[0] == 'const':
+                home = r[1]
+                sub = _SpeciesSetInterp(self.fi.node, home)
+                v = sub.ev(home.constants[r[2]], {})
+                todo = [v]
+                while todo:
+                    x = todo.pop()
+                    if isinstance(x, _Record):
+                        self._home[id(x)] = home
+                        todo += list(x.values)
+                    elif isinstance(x, (tuple, list)) and not self.I._is_sp(x):
+                        todo += list(x)
+                    elif isinstance(x, dict):
+                        todo += list(x.values())
+            self._consts[name] = v
+        return self._consts[name]
+
+    def ev(self, e, env):
+        if isinstance(e, ast.Name):
+            if e.id in env:
+                return env[e.id]
+            v = self._const(e.id)
+            if v is not None:
+                return v
+        if isinstance(e, (ast.ListComp, ast.GeneratorExp, ast.SetComp)) and len(e.generators) == 1:
+            g = e.generators[0]
+            items = self._items(self.ev(g.iter, env))
+            if items is not None:
+                out = []
+                for gs, item in items:
+                    e2 = dict(env)
+                    self.I.bind(g.target, item, e2)
+                    conds, keep = list(gs), True
+                    for c in g.ifs:
+                        r = self.test(c, e2)
+                        if r is False:
+                            keep = False
+                            break
+                        if r is not True:
+                            conds += r
+                    if keep:
+                        out.append((conds, self.ev(e.elt, e2)))
+                return _CondList(out)
+        if isinstance(e, ast.Call) and isinstance(e.func, ast.Attribute) and not e.args and not e.keywords:
+            recv = self.ev(e.func.value, env)
+            if isinstance(recv, _Record):
+                return self.method(recv, e.func.attr)
+        if isinstance(e, (ast.Tuple, ast.List)) and not any(isinstance(x, ast.Starred) for x in e.elts):
+            return tuple(self.ev(x, env) for x in e.elts)
+        if isinstance(e, ast.Subscript) and not isinstance(e.slice, ast.Slice):
+            b, i = self.ev(e.value, env), self.ev(e.slice, env)
+            if isinstance(b, dict) and not isinstance(i, (_Sym, _CondList, _Record)) and i in b:
+                return b[i]
+            if isinstance(b, (tuple, list)) and not self.I._is_sp(b) and isinstance(i, int) and not isinstance(i, bool) and -len(b) <= i < len(b):
+                return b[i]
+            return _Sym(self.I.subst(e, env))
+        if isinstance(e, ast.Attribute):
+            b = self.ev(e.value, env)
+            if isinstance(b, _Record):
+                if e.attr in b.fields:
+                    return b.fields[e.attr]
+                raise _Cannot(f'`{norm(e)}` of a table row')
+            return _Sym(self.I.subst(e, env))
+        local = {k: v for k, v in env.items() if not isinstance(v, _CondList)}
+        if any(isinstance(x, ast.Name) and isinstance(env.get(x.id), _CondList) for x in ast.walk(e)):
+            return _Sym(norm(e))
+        return self.I.ev(e, local)
+
+    def _items(self, seq):
+        if isinstance(seq, _CondList):
+            return list(seq.items)
+        if isinstance(seq, dict):
+            return [([], k) for k in seq]
+        if isinstance(seq, (tuple, list)) and not self.I._is_sp(seq):
+            return [([], x) for x in seq]
+        return None
+
+    def test(self, c, env):
+        """True / False when the test is concretely known, else its conjuncts as path conditions [(text, polarity)]"""
+        out = []
+        for t, pol in conjuncts(c, True):
+            while isinstance(t, ast.UnaryOp) and isinstance(t.op, ast.Not):
+                t, pol = t.operand, not pol
+            v = self.ev(t, env)
+            if isinstance(v, _Sym):
+                out.append((v.text, pol))
+            elif isinstance(v, _CondList):
+                raise _Cannot('truth of a conditional list')
+            elif (isinstance(v, _Record) or bool(v)) != pol:
+                return False
+        return out or True
+
+    def simplify(self, e, env):
+        """expression e with what is concretely known filled in: fields of a row, `getattr(x, 'name')` -> x.name,
+        bool(x) -> x"""
+        import copy
+        me = self
+
+        class T(ast.NodeTransformer):
+            def generic_visit(self, n):
+                n = super().generic_visit(n)
+                if isinstance(n, (ast.Attribute, ast.Name, ast.Subscript)) and isinstance(getattr(n, 'ctx', None), ast.Load):
+                    try:
+                        v = me.ev(n, env)
+                    except _Cannot:
+                        return n
+                    if v is None or isinstance(v, (str, int, float, bool)):
+                        return ast.Constant(value=v)
+                if isinstance(n, ast.Call) and isinstance(n.func, ast.Name) and not n.keywords:
+                    if n.func.id == 'getattr' and len(n.args) == 2 and isinstance(n.args[1], ast.Constant) \
+                            and isinstance(n.args[1].value, str) and n.args[1].value.isidentifier():
+                        return ast.Attribute(value=n.args[0], attr=n.args[1].value, ctx=ast.Load())
+                    if n.func.id == 'bool' and len(n.args) == 1:
+                        return n.args[0]
+                return n
+        return ast.fix_missing_locations(T().visit(ast.parse(ast.unparse(e), mode='eval').body))
+
+    def method(self, rec, name):
+        home = self._home.get(id(rec)) or self.fi.module
+        ci = home.classes.get(rec.cls)
+        fm = ci.methods.get(name) if ci is not None else None
+        if fm is None:
+            raise _Cannot(f'method {name} of a table row')
+        a = fm.node.args
+        if len(a.posonlyargs + a.args) != 1 or a.vararg or a.kwarg or a.kwonlyargs or fm.node.decorator_list:
+            raise _Cannot(f'method {name} takes arguments')
+        r = self._ret(fm.node.body, {a.args[0].arg if a.args else a.posonlyargs[0].arg: rec})
+        if r is self._NORET:
+            return None
+        return r
+
+    def _ret(self, stmts, env):
+        for st in stmts:
+            if isinstance(st, ast.Expr) and isinstance(st.value, ast.Constant):
+                continue
+            if isinstance(st, ast.Return):
+                if st.value is None:
+                    return None
+                v = self.ev(st.value, env)
+                if isinstance(v, _Sym):
+                    return _Sym(norm(self.simplify(st.value, env)))
+                return v
+            if isinstance(st, ast.If):
+                t = self.test(st.test, env)
+                if t is True or t is False:
+                    r = self._ret(st.body if t else st.orelse, env)
+                    if r is not self._NORET:
+                        return r
+                    continue
+            raise _Cannot(f'statement `{norm(st)[:40]}` in a method of a table row')
+        return self._NORET
+
+    # ---- reads
+    def scan(self, e, env, guards):
+        if e is None:
+            return
+        for x in ast.walk(e):
+            if isinstance(x, (ast.ListComp, ast.SetComp, ast.DictComp, ast.GeneratorExp, ast.Lambda)) and x is not e:
+                bound = {n.id for g in getattr(x, 'generators', []) for n in ast.walk(g.target) if isinstance(n, ast.Name)}
+                if isinstance(x, ast.Lambda):
+                    bound = {a_.arg for a_ in x.args.args}
+                for y in ast.walk(x):
+                    if isinstance(y, ast.Subscript) and isinstance(y.value, ast.Name) and y.value.id in bound:
+                        y._c11_skip = True
+        for x in ast.walk(e):
+            if isinstance(x, ast.Subscript) and isinstance(x.ctx, ast.Load) and not getattr(x, '_c11_skip', False):
+                try:
+                    b = self.ev(x.value, env)
+                except _Cannot:
+                    continue
+                if isinstance(b, _Sym) and b.text == self.comp:
+                    self.sites.append((list(guards), x))
+
+    # ---- statements
+    def block(self, stmts, env, guards, in_loop):
+        """runs the statements; True when every path through them leaves (return / continue / break / raise)"""
+        guards = list(guards)
+        for st in stmts:
+            self.steps += 1
+            if self.steps > 4000:
+                raise _Cannot('too long')
+            if isinstance(st, (ast.Pass, ast.Import, ast.ImportFrom, ast.Global, ast.Nonlocal, ast.Assert)):
+                continue
+            if isinstance(st, ast.Expr):
+                self.scan(st.value, env, guards)
+            elif isinstance(st, (ast.Return, ast.Raise)):
+                self.scan(getattr(st, 'value', None) or getattr(st, 'exc', None), env, guards)
+                if isinstance(st, ast.Return) and in_loop:
+                    raise _Cannot('return inside a loop')
+                return True
+            elif isinstance(st, (ast.Continue, ast.Break)):
+                if isinstance(st, ast.Break):
+                    raise _Cannot('break')
+                return True
+            elif isinstance(st, (ast.Assign, ast.AnnAssign)):
+                if st.value is None:
+                    continue
+                self.scan(st.value, env, guards)
+                tg = st.targets if isinstance(st, ast.Assign) else [st.target]
+                v = self.ev(st.value, env)
+                for t in tg:
+                    if isinstance(t, ast.Name):
+                        env[t.id] = v
+                    elif isinstance(t, (ast.Tuple, ast.List)):
+                        try:
+                            self.I.bind(t, v, env)
+                        except _Cannot:
+                            for n in ast.walk(t):
+                                if isinstance(n, ast.Name):
+                                    env[n.id] = _Sym(n.id)
+                    elif isinstance(t, ast.Subscript) and isinstance(t.value, ast.Name) and isinstance(env.get(t.value.id), (dict, tuple, list, _CondList)):
+                        raise _Cannot('a table is changed in place')
+            elif isinstance(st, ast.AugAssign):
+                self.scan(st.value, env, guards)
+                if isinstance(st.target, ast.Name):
+                    if isinstance(env.get(st.target.id), (dict, tuple, list, _CondList)):
+                        raise _Cannot('a table is changed in place')
+                    env[st.target.id] = _Sym(st.target.id)
+            elif isinstance(st, ast.For) and not st.orelse:
+                self.scan(st.iter, env, guards)
+                items = self._items(self.ev(st.iter, env))
+                if items is None:
+                    items = [([], None)]
+                for gs, item in items:
+                    if item is None:
+                        for n in ast.walk(st.target):
+                            if isinstance(n, ast.Name):
+                                env[n.id] = _Sym(n.id)
+                    else:
+                        self.I.bind(st.target, item, env)
+                    self.block(st.body, env, guards + gs, in_loop=True)
+                for n in {n.id for t, _s, _h in stores_to(st) for n in ast.walk(t) if isinstance(n, ast.Name)}:
+                    if not isinstance(env.get(n), (dict, _CondList)):
+                        env[n] = _Sym(n)
+            elif isinstance(st, ast.If):
+                self.scan(st.test, env, guards)
+                t = self.test(st.test, env)
+                if t is True or t is False:
+                    if self.block(st.body if t else st.orelse, env, guards, in_loop):
+                        return True
+                    continue
+                g_true = list(t)
+                g_false = [(x, not pol) for x, pol in t] if len(t) == 1 else []
+                e1, e2 = dict(env), dict(env)
+                r1 = self.block(st.body, e1, guards + g_true, in_loop)
+                r2 = self.block(st.orelse, e2, guards + g_false, in_loop)
+                if r1 and r2:
+                    return True
+                merged = e2 if r1 else e1 if r2 else \
+                    {k: (e1[k] if k in e1 and k in e2 and e1[k] is e2[k] else _Sym(k)) for k in set(e1) | set(e2)}
+                env.clear()
+                env.update(merged)
+                if r1:
+                    guards += g_false
+                elif r2:
+                    guards += g_true
+            elif isinstance(st, ast.FunctionDef):
+                env[st.name] = _Sym(st.name)
+            else:
+                raise _Cannot(f'statement `{norm(st)[:50]}`')
+        return False
+
+
+def _guard_premises(table, guards):
+    """path conditions of a symbolic run as premises over the option fields; a condition that looks like one on the
+    configuration but cannot be read as one is not dropped (that would change the predicate): _Cannot"""
+    out = []
+    for text, pol in guards:
+        try:
+            e = ast.parse(text, mode='eval').body
+        except SyntaxError:
+            raise _Cannot(f'condition `{text[:40]}`')
+        p_ = table.premises(None, [(e, pol)])
+        if not p_ and ('config' in text or 'enabled' in text or 'getattr' in text):
+            raise _Cannot(f'condition `{text[:40]}` is not a predicate over the option fields')
+        out += p_
+    return out
+
+
+def _entry_sites(prog, table, fi, name, bind=None, outer=(), depth=0):
+    """where the elements of the map `name` of function fi are read - `name[…]` in fi, or in a resolved helper the map
+    is handed to (its parameters bound to the arguments of the call): [(premises on the configuration under which the
+    read happens - the facts at the read, and at the calls that lead to it -, the read)]"""
+    out = []
+    for x in walk_no_nested(fi.node):
+        if isinstance(x, ast.Subscript) and isinstance(x.ctx, ast.Load) and isinstance(x.value, ast.Name) and x.value.id == name:
+            here = table.premises(fi, facts_at(fi.node, x)) if bind is None else _bound_premises(table, fi, facts_at(fi.node, x), bind)
+            out.append((list(outer) + here, x))
+    if depth < 3:
+        for c in calls_in(fi.node):
+            if not any(isinstance(a_, ast.Name) and a_.id == name for a_ in [*c.args, *[k.value for k in c.keywords]]):
+                continue
+            callee = resolve_call(prog, fi, c)
+            if callee is None or callee.node is fi.node or callee.node.decorator_list:
+                continue
+            b = _call_binding(callee, c, fi, bind if bind is not None else {})
+            if b is None:
+                continue
+            here = table.premises(fi, facts_at(fi.node, c)) if bind is None else _bound_premises(table, fi, facts_at(fi.node, c), bind)
+            for pname in callee.params:
+                a_ = _bound_arg(callee, c, pname)
+                if isinstance(a_, ast.Name) and a_.id == name:
+                    out += _entry_sites(prog, table, callee, pname, b, list(outer) + here, depth + 1)
+    if not out and depth == 0 and bind is None and name in fi.params:
+        # the map is not read under its own name: it travels through tables (a dict of the sources, rows that say under
+        # which switch each is used); run the function over what is concretely known
+        try:
+            out = [(_guard_premises(table, gs), x) for gs, x in _ReadsOf(prog, fi, name).run()]
+        except (_Cannot, RecursionError, AttributeError, KeyError, TypeError, ValueError, SyntaxError):
+            out = []
+    return out
+
+
 def rule_switches(ctx, table):
     """R5: a component is added to the totals under exactly the configurations under which it is computed - the two
     conditions are compared as predicates over the option fields (so `a and b`, nested ifs, a guard clause, a hoisted
@@ -2800,12 +3578,11 @@ def rule_switches(ctx, table):
         if not comp_calls:
             ctx.undecided('C11-R5', ce, comp, 'component computation not found')
         C = table.premises(ce, facts_at(ce.node, comp_calls[0]))
-        adds = [x for x in walk_no_nested(st.node) if isinstance(x, ast.AugAssign) and f'{comp}[' in norm(x.value)]
+        adds = _entry_sites(prog, table, st, comp)
         if not adds:
             ctx.undecided('C11-R5', st, comp, 'the place where the component enters the totals was not found')
         want = table.premises(None, [(ast.parse(f'config.emissions.{comp}_enabled', mode='eval').body, True)])
-        for x in adds:
-            S = table.premises(st, facts_at(st.node, x))
+        for S, x in adds:
             d1 = table.differ(C, S)
             d2 = table.differ(C, want) if d1 is None else None
             ok = d1 is None and d2 is None and bool(C)
